@@ -429,5 +429,43 @@ func runC05(c *h.Ctx) {
 	for _, n := range []string{"two-type1-shared-last-byte", "shared-last-byte-reversed"} {
 		c05Run(c, n, configs[n], []string{"t1:known", "t2:known", "t1:known"}, t1share, t2, true)
 	}
+	// batches decoded one after the other into ONE decoder object, each set aside by value (queued) before the next is
+	// decoded, and evaluated only afterwards: every queued batch still gets ITS responses, in its order
+	{
+		dec := new(batched.BatchedTokenRequest)
+		type queued struct {
+			br   batched.BatchedTokenRequest
+			reqs []c05Req
+		}
+		var q []queued
+		for _, kindsQ := range [][]string{{"t1:known", "t2:known", "t1:known"}, {"t2:known", "t1:known"}, {"t1:known"}, {"t2:known", "t2:known", "t1:known"}} {
+			var reqs []c05Req
+			var objs []tokens.TokenRequestWithDetails
+			for _, k := range kindsQ {
+				r := c05Make(c, k, t1, t2)
+				reqs = append(reqs, r)
+				objs = append(objs, r.req)
+			}
+			br, err := batched.NewBasicClient().CreateTokenRequest(objs)
+			if err != nil || !dec.Unmarshal(br.Marshal()) {
+				continue
+			}
+			q = append(q, queued{*dec, reqs})
+		}
+		bi := batched.NewBasicBatchedIssuer(t1.asIssuer(), t2.asIssuer())
+		for qi := range q {
+			out, err := bi.EvaluateBatch(&q[qi].br)
+			c.Count("batch:queued-copies-of-one-decoder", 1, fmt.Sprint(qi))
+			resps, derr := batched.UnmarshalBatchedTokenResponses(out)
+			ok := err == nil && derr == nil && len(resps) == len(q[qi].reqs)
+			for i := 0; ok && i < len(resps); i++ {
+				tok, e := q[qi].reqs[i].fin(resps[i])
+				ok = e == nil && q[qi].reqs[i].check(tok)
+			}
+			if !ok {
+				c.Violation("a batch set aside after decoding keeps its requests: one entry per request, in order, each finalizing under its own request's state (another batch was decoded into the same decoder object meanwhile)", map[string]any{"queued_batch": qi})
+			}
+		}
+	}
 	_ = big.NewInt
 }
